@@ -448,6 +448,14 @@ func init() {
 		}
 		live := c.Sub(buf.len, off)
 		newSize := c.Add(live, n)
+		// capacity suffices: the real Grow reslices in place, so slices taken from an earlier use
+		// of a pooled buffer alias what the next user writes (read offset 0, as after Reset)
+		if buf.obj != nil && off.IsConst() && off.k == 0 {
+			if ex.branch(c.Sle(c.Add(buf.len, n), buf.cap)) {
+				finish(nil)
+				return true
+			}
+		}
 		ex.ctx.fresh++
 		o := ex.newByteObject(newSize, symSeq{fmt.Sprintf("stale!%d", ex.ctx.fresh)})
 		if buf.obj != nil {
